@@ -148,6 +148,9 @@ theorem Att.keep_leaf {t t' : Tree} {e : WinTree.Id} (h : KeepParents (some e) t
     have hpe : p ≠ e := fun he => hleaf x w hw hf (by rw [hp, he])
     exact Att.step hw' hf' (by rw [hp']; exact hp) (ih hpe)
 
+/-- The requests `_request_hierarchy_change` is asked to queue by the public API: raise, lower, to front, to back. -/
+def Restack (c : Change) : Prop := c = .raise ∨ c = .raiseFront ∨ c = .lower ∨ c = .lowerBack
+
 /-- Consistency of the window store. -/
 structure TInv (t : Tree) : Prop where
   root : ∃ w0, t.wins[0]? = some w0 ∧ w0.freed = false ∧ w0.parent = none
@@ -166,6 +169,8 @@ structure TInv (t : Tree) : Prop where
   rootflag : ∀ (i : WinTree.Id) (w : Win), t.wins[i]? = some w → w.freed = false → (w.isRoot = true ↔ i = 0)
   /-- a queued restack request names a live window, its parent, and the window still hangs below the root -/
   queue : ∀ r ∈ t.root.changes, ∃ w, t.wins[r.win]? = some w ∧ w.freed = false ∧ w.parent = some r.parent ∧ Att t r.win
+  /-- only restack requests are ever queued -/
+  qkind : ∀ r ∈ t.root.changes, Restack r.change
 
 /-- The root's drag source, if any, is a live window. -/
 def DragOK (t : Tree) : Prop := ∀ d, t.root.dragSource = some d → Alive t d
@@ -254,6 +259,9 @@ theorem TInv.shape {t t' : Tree} (hi : TInv t) (h : Shape t t') : TInv t' := by
     obtain ⟨w', hw', e⟩ := h.some hw
     obtain ⟨e1, _, _, _, _, _, _, _, e9⟩ := noRc_fields e
     exact ⟨w', hw', by rw [e9]; exact hf, by rw [e1]; exact hp, ha.keep h.keepParents⟩
+  · intro r hr
+    rw [h.changes] at hr
+    exact hi.qkind r hr
 
 theorem DragOK.shape {t t' : Tree} (hd : DragOK t) (h : Shape t t') (hs : t'.root.dragSource = t.root.dragSource) :
     DragOK t' := by
@@ -417,6 +425,7 @@ theorem TInv.set_fields {t : Tree} (hi : TInv t) {i : WinTree.Id} {w w' : Win} (
     intro y yw hy hyf _
     obtain ⟨y', hy', hyf', hyp', _⟩ := hget y yw hy hyf
     exact ⟨y', hy', hyf', hyp'⟩
+  · exact hi.qkind
 
 theorem alive_set {t : Tree} {i : WinTree.Id} {w w' : Win} (hw : t.wins[i]? = some w) (hf' : w'.freed = w.freed)
     {j : WinTree.Id} (ha : Alive t j) : Alive (WinTree.set t i w') j := by
@@ -580,6 +589,8 @@ theorem TInv.queue_sub {t t' : Tree} (hi : TInv t) (hw : t'.wins = t.wins)
   · intro r hr
     obtain ⟨w, a, b, c, d⟩ := hi.queue r (hq r hr)
     exact ⟨w, by rw [e]; exact a, b, c, d.keep kp⟩
+  · intro r hr
+    exact hi.qkind r (hq r hr)
 
 /-- A window with no parent that hangs below the root is the root. -/
 theorem Att.top {t : Tree} {x : WinTree.Id} {w : Win} (ha : Att t x) (hw : t.wins[x]? = some w) (hp : w.parent = none) : x = 0 := by
@@ -819,6 +830,7 @@ theorem remove_step {t : Tree} (hi : TInv t) (hd : DragOK t) {win p : WinTree.Id
       intro y yw hy hyf hne
       obtain ⟨y', a, b, c, _⟩ := alive' y yw hy hyf
       exact ⟨y', a, b, c (by simpa using hne)⟩
+    · exact hi.qkind
   · intro d hdd
     obtain ⟨x, hx, hxf⟩ := hd d hdd
     obtain ⟨x', hx', hxf', _, _⟩ := alive' d x hx hxf
@@ -951,6 +963,7 @@ theorem TInv.free {t : Tree} (hi : TInv t) {c : WinTree.Id} {w w' : Win} (hw : t
     · intro y yw hy hyf hyp
       obtain ⟨qw, hqw, _, hqm⟩ := hi.parent y c yw hy hyf hyp
       rw [hw] at hqw; cases hqw; rw [hch] at hqm; cases hqm
+  · exact hi.qkind
 
 theorem normalizeDrag_ok (t : Tree) : DragOK (normalizeDrag t) ∧ (normalizeDrag t).wins = t.wins ∧
     (normalizeDrag t).root.changes = t.root.changes := by
@@ -1260,16 +1273,513 @@ theorem AInv.release {st : St} {held : List WinTree.Id} {c : WinTree.Id} (h : AI
       obtain ⟨y', hy', f, _, _⟩ := ko.win x y hxc hy
       exact ⟨y', hy', by rw [f]; exact hyf⟩
 
+/-! ### restack requests -/
+
+/-- Alive windows keep their place in the tree: parent and children. -/
+def KeepLinks (t t' : Tree) : Prop :=
+  ∀ (x : WinTree.Id) (w : Win), t.wins[x]? = some w → w.freed = false →
+    ∃ w', t'.wins[x]? = some w' ∧ w'.freed = false ∧ w'.parent = w.parent ∧ w'.children = w.children
+
+theorem KeepLinks.refl (t : Tree) : KeepLinks t t := fun _ w hw hf => ⟨w, hw, hf, rfl, rfl⟩
+
+theorem KeepLinks.trans {a b c : Tree} (h1 : KeepLinks a b) (h2 : KeepLinks b c) : KeepLinks a c := by
+  intro x w hw hf
+  obtain ⟨w1, a1, b1, c1, d1⟩ := h1 x w hw hf
+  obtain ⟨w2, a2, b2, c2, d2⟩ := h2 x w1 a1 b1
+  exact ⟨w2, a2, b2, c2.trans c1, d2.trans d1⟩
+
+theorem KeepLinks.of_wins {t t' : Tree} (h : t'.wins = t.wins) : KeepLinks t t' :=
+  fun _ w hw hf => ⟨w, by rw [h]; exact hw, hf, rfl, rfl⟩
+
+theorem KeepLinks.keepParents {t t' : Tree} (h : KeepLinks t t') : KeepParents none t t' := by
+  intro x w hw hf _
+  obtain ⟨w', a, b, c, _⟩ := h x w hw hf
+  exact ⟨w', a, b, c⟩
+
+theorem KeepLinks.set {t : Tree} {i : WinTree.Id} {w w' : Win} (hw : t.wins[i]? = some w) (hf : w'.freed = w.freed)
+    (hp : w'.parent = w.parent) (hc : w'.children = w.children) : KeepLinks t (WinTree.set t i w') := by
+  intro x y hy hyf
+  by_cases hix : i = x
+  · subst hix
+    rw [hw] at hy; cases hy
+    exact ⟨w', wins_set_self hw, by rw [hf]; exact hyf, hp, hc⟩
+  · exact ⟨y, by rw [wins_set_ne hix]; exact hy, hyf, rfl, rfl⟩
+
+/-- Same windows; the queue may have changed as long as every request in it is sound. -/
+theorem TInv.of_wins {t t' : Tree} (hi : TInv t) (hw : t'.wins = t.wins)
+    (hq : ∀ r ∈ t'.root.changes, (∃ w, t.wins[r.win]? = some w ∧ w.freed = false ∧ w.parent = some r.parent ∧ Att t r.win) ∧
+      Restack r.change) : TInv t' := by
+  have e : ∀ (i : WinTree.Id), t'.wins[i]? = t.wins[i]? := fun i => by rw [hw]
+  have kp : KeepParents none t t' := fun x w hx hf _ => ⟨w, by rw [e]; exact hx, hf, rfl⟩
+  constructor
+  · obtain ⟨w0, h0, h1, h2⟩ := hi.root; exact ⟨w0, by rw [e]; exact h0, h1, h2⟩
+  · intro i c w h1 h2 h3
+    rw [e] at h1
+    obtain ⟨cw, a, b, c'⟩ := hi.child i c w h1 h2 h3
+    exact ⟨cw, by rw [e]; exact a, b, c'⟩
+  · intro c p cw h1 h2 h3
+    rw [e] at h1
+    obtain ⟨pw, a, b, c'⟩ := hi.parent c p cw h1 h2 h3
+    exact ⟨pw, by rw [e]; exact a, b, c'⟩
+  · intro i f w h1 h2 h3; rw [e] at h1; exact hi.focus i f w h1 h2 h3
+  · intro i w h1 h2; rw [e] at h1; exact hi.nodup i w h1 h2
+  · intro i w h1 h2; rw [e] at h1; exact hi.noself i w h1 h2
+  · intro i w h1 h2 h3; rw [e] at h1; exact hi.closed i w h1 h2 h3
+  · intro c p cw h1 h2 h3; rw [e] at h1; exact hi.lt c p cw h1 h2 h3
+  · intro i w h1 h2; rw [e] at h1; exact hi.rootflag i w h1 h2
+  · intro r hr
+    obtain ⟨⟨w, a, b, c, d⟩, _⟩ := hq r hr
+    exact ⟨w, by rw [e]; exact a, b, c, d.keep kp⟩
+  · intro r hr
+    exact (hq r hr).2
+
+theorem attached_att {t : Tree} (hi : TInv t) : ∀ (f : Nat) (x : WinTree.Id), attached t f x = true → Att t x := by
+  intro f
+  induction f with
+  | zero => intro x h; simp [attached] at h
+  | succ f ih =>
+    intro x h
+    unfold attached at h
+    cases hw : t.wins[x]? with
+    | none => simp [hw] at h
+    | some w =>
+      simp only [hw] at h
+      by_cases hf : w.freed = true
+      · simp [hf] at h
+      · have hf' : w.freed = false := by simpa using hf
+        simp only [hf', Bool.false_eq_true, if_false] at h
+        by_cases hr : w.isRoot = true
+        · have := (hi.rootflag x w hw hf').1 hr
+          subst this; exact Att.root
+        · simp only [hr, if_false] at h
+          cases hp : w.parent with
+          | none => simp [hp] at h
+          | some p => simp only [hp] at h; exact Att.step hw hf' hp (ih p h)
+
+/-- `_get_root` of a window that hangs below the root never aborts. -/
+theorem getRoot_safe {t : Tree} (hi : TInv t) : ∀ (f : Nat) (x : WinTree.Id), Att t x →
+    SafeR (getRoot t f x) (fun _ => True) := by
+  intro f
+  induction f with
+  | zero => intro x _; exact Or.inl rfl
+  | succ f ih =>
+    intro x ha
+    unfold getRoot
+    cases ha with
+    | root =>
+      obtain ⟨w0, hw0, hf0, _⟩ := hi.root
+      have hr := (hi.rootflag 0 w0 hw0 hf0).2 rfl
+      simp only [get_eq_ok.2 ⟨hw0, hf0⟩, res_bind_ok, hr, if_true]
+      trivial
+    | @step _ p w hw hf hp ha' =>
+      simp only [get_eq_ok.2 ⟨hw, hf⟩, res_bind_ok]
+      by_cases hr : w.isRoot = true
+      · simp only [hr, if_true]; trivial
+      · simp only [hr, if_false, hp]
+        exact ih p ha'
+
+/-- `_request_hierarchy_change` for a window that hangs below the root. -/
+theorem request_safe {t : Tree} (hi : TInv t) (hd : DragOK t) (f : Nat) {c : Change} (hc : Restack c) {win : WinTree.Id}
+    (ha : Alive t win) (hatt : Att t win) :
+    SafeR (requestHierarchyChange t f c win) (fun t' => StepOK t t' ∧ t'.wins = t.wins) := by
+  obtain ⟨w, hg, hw, hf⟩ := ha.get
+  unfold requestHierarchyChange
+  simp only [hg, res_bind_ok]
+  cases hp : w.parent with
+  | none => exact ⟨StepOK.refl hi hd, rfl⟩
+  | some p =>
+    simp only
+    apply SafeR.bind (getRoot_safe hi f win hatt)
+    intro _ _
+    refine ⟨⟨hi.of_wins rfl ?_, fun d hd' => hd d hd', Evolve.of_wins rfl⟩, rfl⟩
+    intro r hr
+    rcases List.mem_append.1 hr with h | h
+    · exact ⟨hi.queue r h, hi.qkind r h⟩
+    · simp only [List.mem_singleton] at h
+      subst h
+      exact ⟨⟨w, hw, hf, hp, hatt⟩, hc⟩
+
+/-! ### the list surgery of `_do_hierarchy_raise` / `_do_hierarchy_lower` -/
+
+theorem listRaise_perm : ∀ (cs : List WinTree.Id) (w : WinTree.Id), w ∈ cs → ∃ cs', listRaise cs w = Res.ok cs' ∧ cs'.Perm cs := by
+  intro cs
+  induction cs with
+  | nil => intro w h; cases h
+  | cons x rest ih =>
+    intro w h
+    cases rest with
+    | nil =>
+      have : w = x := by simpa using h
+      subst this
+      exact ⟨[w], by simp [listRaise], List.Perm.refl _⟩
+    | cons y rest =>
+      by_cases hx : x = w
+      · exact ⟨x :: y :: rest, by simp [listRaise, hx], List.Perm.refl _⟩
+      · by_cases hy : y = w
+        · exact ⟨y :: x :: rest, by simp [listRaise, hx, hy], List.Perm.swap _ _ _⟩
+        · have hm : w ∈ y :: rest := by
+            rcases List.mem_cons.1 h with h | h
+            · exact absurd h.symm hx
+            · exact h
+          obtain ⟨r, hr, hperm⟩ := ih w hm
+          refine ⟨x :: r, ?_, hperm.cons x⟩
+          simp only [listRaise, hx, hy, if_false, hr, res_bind_ok, res_pure]
+
+theorem listLower_perm : ∀ (cs : List WinTree.Id) (w : WinTree.Id), (listLower cs w).Perm cs := by
+  intro cs
+  induction cs with
+  | nil => intro w; exact List.Perm.refl _
+  | cons x rest ih =>
+    intro w
+    cases rest with
+    | nil => exact List.Perm.refl _
+    | cons y rest =>
+      by_cases hx : x = w
+      · simp only [listLower, hx, if_true]; exact List.Perm.swap _ _ _
+      · simp only [listLower, hx, if_false]; exact (ih w).cons x
+
+/-- Reordering the children of a live window keeps the store consistent. -/
+theorem TInv.set_perm {t : Tree} (hi : TInv t) {i : WinTree.Id} {w w' : Win} (hw : t.wins[i]? = some w)
+    (hfr : w.freed = false) (hp : w'.parent = w.parent) (hc : ∀ c, c ∈ w'.children ↔ c ∈ w.children)
+    (hnd : w'.children.Nodup) (hf' : w'.freed = false)
+    (hfo : ∀ f, w'.focusedChild = some f → f ∈ w'.children) (hcl : w'.isClosed = true → w'.parent = none)
+    (hro : w'.isRoot = w.isRoot) : TInv (WinTree.set t i w') := by
+  have hget : ∀ (j : WinTree.Id) (x : Win), t.wins[j]? = some x → x.freed = false →
+      ∃ x', (WinTree.set t i w').wins[j]? = some x' ∧ x'.freed = false ∧ x'.parent = x.parent ∧
+        (∀ c, c ∈ x'.children ↔ c ∈ x.children) := by
+    intro j x hx hxf
+    by_cases hij : i = j
+    · subst hij
+      rw [hw] at hx; cases hx
+      exact ⟨w', wins_set_self hw, hf', hp, hc⟩
+    · exact ⟨x, by rw [wins_set_ne hij]; exact hx, hxf, rfl, fun _ => Iff.rfl⟩
+  have hback : ∀ (j : WinTree.Id) (x' : Win), (WinTree.set t i w').wins[j]? = some x' → x'.freed = false →
+      ∃ x, t.wins[j]? = some x ∧ x.freed = false ∧ x'.parent = x.parent ∧ (∀ c, c ∈ x'.children ↔ c ∈ x.children) := by
+    intro j x' hx' hxf
+    rcases wins_set_cases hw j x' hx' with ⟨rfl, rfl⟩ | ⟨_, h⟩
+    · exact ⟨w, hw, hfr, hp, hc⟩
+    · exact ⟨x', h, hxf, rfl, fun _ => Iff.rfl⟩
+  constructor
+  · obtain ⟨w0, hw0, hf0, hp0⟩ := hi.root
+    obtain ⟨x', hx', hxf, hxp, _⟩ := hget 0 w0 hw0 hf0
+    exact ⟨x', hx', hxf, by rw [hxp]; exact hp0⟩
+  · intro j c x' hx' hxf hcm
+    obtain ⟨x, hx, hxf0, _, hxc⟩ := hback j x' hx' hxf
+    obtain ⟨cw, hcw, hcf, hcp⟩ := hi.child j c x hx hxf0 ((hxc c).1 hcm)
+    obtain ⟨cw', hcw', hcf', hcp', _⟩ := hget c cw hcw hcf
+    exact ⟨cw', hcw', hcf', by rw [hcp']; exact hcp⟩
+  · intro c p cw' hcw' hcf hcp
+    obtain ⟨cw, hcw, hcf0, hpp, _⟩ := hback c cw' hcw' hcf
+    obtain ⟨pw, hpw, hpf, hpm⟩ := hi.parent c p cw hcw hcf0 (by rw [← hpp]; exact hcp)
+    obtain ⟨pw', hpw', hpf', _, hpc'⟩ := hget p pw hpw hpf
+    exact ⟨pw', hpw', hpf', (hpc' c).2 hpm⟩
+  · intro j f x' hx' hxf hfc
+    rcases wins_set_cases hw j x' hx' with ⟨rfl, rfl⟩ | ⟨_, h⟩
+    · exact hfo f hfc
+    · exact hi.focus j f x' h hxf hfc
+  · intro j x' hx' hxf
+    rcases wins_set_cases hw j x' hx' with ⟨rfl, rfl⟩ | ⟨_, h⟩
+    · exact hnd
+    · exact hi.nodup j x' h hxf
+  · intro j x' hx' hxf
+    obtain ⟨x, hx, hxf0, hxp, _⟩ := hback j x' hx' hxf
+    rw [hxp]; exact hi.noself j x hx hxf0
+  · intro j x' hx' hxf hcl'
+    rcases wins_set_cases hw j x' hx' with ⟨rfl, rfl⟩ | ⟨_, h⟩
+    · exact hcl hcl'
+    · exact hi.closed j x' h hxf hcl'
+  · intro c p x' hx' hxf hpp
+    obtain ⟨x, hx, hxf0, hxp, _⟩ := hback c x' hx' hxf
+    exact hi.lt c p x hx hxf0 (by rw [← hxp]; exact hpp)
+  · intro j x' hx' hxf
+    rcases wins_set_cases hw j x' hx' with ⟨rfl, rfl⟩ | ⟨_, h⟩
+    · rw [hro]; exact hi.rootflag j w hw hfr
+    · exact hi.rootflag j x' h hxf
+  · intro r hr
+    obtain ⟨x, hx, hxf, hxp, ha⟩ := hi.queue r hr
+    obtain ⟨x', hx', hxf', hxp', _⟩ := hget r.win x hx hxf
+    refine ⟨x', hx', hxf', by rw [hxp']; exact hxp, ha.keep ?_⟩
+    intro y yw hy hyf _
+    obtain ⟨y', hy', hyf', hyp', _⟩ := hget y yw hy hyf
+    exact ⟨y', hy', hyf', hyp'⟩
+  · exact hi.qkind
+
+/-- The parent's record with its children reordered: one step of `tickit_window_flush`'s restacking. -/
+theorem perm_step {t : Tree} (hi : TInv t) (hd : DragOK t) {p : WinTree.Id} {pw : Win} (hpw : t.wins[p]? = some pw)
+    (hpf : pw.freed = false) {cs' : List WinTree.Id} (hperm : cs'.Perm pw.children) :
+    StepOK t (WinTree.set t p { pw with children := cs' }) := by
+  refine ⟨hi.set_perm hpw hpf rfl (fun c => hperm.mem_iff) (hperm.nodup_iff.2 (hi.nodup p pw hpw hpf)) hpf ?_ ?_ rfl,
+    hd.set hpw rfl, Evolve.set hpw rfl rfl ?_⟩
+  · intro f hf; exact hperm.mem_iff.2 (hi.focus p f pw hpw hpf hf)
+  · intro hcl; exact hi.closed p pw hpw hpf hcl
+  · intro h
+    show cs' = []
+    rw [h] at hperm
+    exact List.Perm.eq_nil hperm
+
+/-- `_do_hierarchy_change` for a queued restack request. -/
+theorem restack_safe {t : Tree} (hi : TInv t) (hd : DragOK t) (f : Nat) {r : Req} (hr : r ∈ t.root.changes) :
+    SafeR (doHierarchyChange t f r.change r.parent r.win) (fun t' => StepOK t t' ∧ t'.root.changes = t.root.changes) := by
+  obtain ⟨w, hw, hf, hp, _⟩ := hi.queue r hr
+  obtain ⟨pw, hpw, hpf, hpm⟩ := hi.parent r.win r.parent w hw hf hp
+  have hk := hi.qkind r hr
+  unfold doHierarchyChange
+  simp only [get_eq_ok.2 ⟨hpw, hpf⟩, get_eq_ok.2 ⟨hw, hf⟩, res_bind_ok]
+  have hcont : pw.children.contains r.win = true := by simpa using hpm
+  have hnd := hi.nodup r.parent pw hpw hpf
+  -- whatever the new order is, the trailing expose only touches the damage bookkeeping
+  have fin : ∀ cs' : List WinTree.Id, cs'.Perm pw.children →
+      SafeR (if w.isVisible = true then expose (WinTree.set t r.parent { pw with children := cs' }) f r.parent (some w.rect)
+        else pure (WinTree.set t r.parent { pw with children := cs' }))
+        (fun t' => StepOK t t' ∧ t'.root.changes = t.root.changes) := by
+    intro cs' hperm
+    have st := perm_step hi hd hpw hpf hperm
+    have hap : Alive (WinTree.set t r.parent { pw with children := cs' }) r.parent := st.ev.alive ⟨pw, hpw, hpf⟩
+    by_cases hv : w.isVisible = true
+    · rw [if_pos hv]
+      refine (expose_safe st.inv f r.parent _ hap).mono ?_
+      intro t' ⟨e1, e2, e3⟩
+      exact ⟨st.trans ⟨st.inv.root_frame e1 e2 e3, st.drag.root_frame e1 e2 e3, Evolve.of_wins e1⟩, e2⟩
+    · rw [if_neg hv]
+      exact ⟨st, rfl⟩
+  rcases hk with hk | hk | hk | hk <;> simp only [hk]
+  · obtain ⟨cs', hcs, hperm⟩ := listRaise_perm pw.children r.win hpm
+    simp only [hcs, res_bind_ok, res_pure]
+    exact fin cs' hperm
+  · simp only [listRemove, hcont, if_true, res_bind_ok, res_pure]
+    exact fin _ (List.perm_cons_erase hpm).symm
+  · simp only [res_bind_ok, res_pure]
+    exact fin _ (listLower_perm _ _)
+  · simp only [listRemove, hcont, if_true, res_bind_ok, res_pure]
+    refine fin _ ?_
+    exact (List.perm_append_comm.trans (List.perm_cons_erase hpm).symm)
+
+/-- The loop of `tickit_window_flush` over the queued requests. -/
+theorem applyChanges_safe : ∀ (l : List Req) (t : Tree), TInv t → DragOK t → (∀ r ∈ l, r ∈ t.root.changes) →
+    SafeR (applyChanges t l) (fun t' => StepOK t t' ∧ t'.root.changes = t.root.changes) := by
+  intro l
+  induction l with
+  | nil => intro t hi hd _; exact ⟨StepOK.refl hi hd, rfl⟩
+  | cons r rest ih =>
+    intro t hi hd hl
+    unfold applyChanges
+    apply SafeR.bind (restack_safe hi hd _ (hl r (List.mem_cons_self ..)))
+    intro t1 ⟨s1, e1⟩
+    refine (ih t1 s1.inv s1.drag ?_).mono ?_
+    · intro r' hr'; rw [e1]; exact hl r' (List.mem_cons_of_mem _ hr')
+    · intro t2 ⟨s2, e2⟩
+      exact ⟨s1.trans s2, e2.trans e1⟩
+
+/-- `tickit_window_flush`, as far as the tree goes. -/
+theorem flush_safe {t : Tree} (hi : TInv t) (hd : DragOK t) : SafeR (flush t) (StepOK t) := by
+  unfold flush
+  by_cases hl : t.root.needsLater = true
+  · simp only [hl, Bool.not_true, Bool.false_eq_true, if_false]
+    have hi0 : TInv ({ t with root := { t.root with needsLater := false } } : Tree) := hi.root_frame rfl rfl rfl
+    have hd0 : DragOK ({ t with root := { t.root with needsLater := false } } : Tree) := hd.root_frame rfl rfl rfl
+    apply SafeR.bind (applyChanges_safe _ _ hi0 hd0 (fun r hr => hr))
+    intro t1 ⟨s1, _⟩
+    have e0 : Evolve t ({ t with root := { t.root with needsLater := false } } : Tree) := Evolve.of_wins rfl
+    have fin : ∀ t2 : Tree, t2.wins = t1.wins → t2.root.changes = [] → t2.root.dragSource = t1.root.dragSource →
+        StepOK t t2 := by
+      intro t2 ew eq ed
+      refine ⟨s1.inv.of_wins ew (fun r hr => by rw [eq] at hr; cases hr), ?_, (e0.trans s1.ev).trans (Evolve.of_wins ew)⟩
+      intro d hdd
+      rw [ed] at hdd
+      obtain ⟨x, hx, hxf⟩ := s1.drag d hdd
+      exact ⟨x, by rw [ew]; exact hx, hxf⟩
+    split
+    · exact fin _ rfl rfl rfl
+    · exact fin _ rfl rfl rfl
+  · have hl' : t.root.needsLater = false := by simpa using hl
+    simp only [hl', Bool.not_false, if_true]
+    exact StepOK.refl hi hd
+
+/-! ### `tickit_window_take_focus` -/
+
+/-- One live window changes in its focus fields only. -/
+theorem focus_set_step {t : Tree} (hi : TInv t) (hd : DragOK t) {i : WinTree.Id} {w w' : Win} (hw : t.wins[i]? = some w)
+    (hf : w.freed = false) (hp : w'.parent = w.parent) (hc : w'.children = w.children) (hf' : w'.freed = false)
+    (hr : w'.refcount = w.refcount) (hcl : w'.isClosed = w.isClosed) (hro : w'.isRoot = w.isRoot)
+    (hfo : ∀ f, w'.focusedChild = some f → f ∈ w.children) :
+    StepOK t (WinTree.set t i w') ∧ KeepLinks t (WinTree.set t i w') :=
+  ⟨set_step hi hd hw hf hp hc hf' hr (fun f h => by rw [hc]; exact hfo f h)
+    (fun h => by rw [hp]; rw [hcl] at h; exact hi.closed i w hw hf h) hro,
+   KeepLinks.set hw (by rw [hf', hf]) hp hc⟩
+
+/-- The tail of `_focus_lost`: the window's own flag. -/
+def flTail (win : WinTree.Id) (t : Tree) : Res Tree := do
+  let w ← WinTree.get t win
+  pure (if w.isFocused then WinTree.set t win { w with isFocused := false } else t)
+
+theorem flTail_safe {t0 t : Tree} {win : WinTree.Id} (s1 : StepOK t0 t) (k1 : KeepLinks t0 t) (ha : Alive t win) :
+    SafeR (flTail win t) (fun t' => StepOK t0 t' ∧ KeepLinks t0 t') := by
+  obtain ⟨w1, hg1, hw1, hf1⟩ := ha.get
+  unfold flTail
+  simp only [hg1, res_bind_ok, res_pure]
+  split
+  · obtain ⟨s2, k2⟩ := focus_set_step (w' := { w1 with isFocused := false }) s1.inv s1.drag hw1 hf1 rfl rfl hf1 rfl rfl rfl
+      (fun f h => s1.inv.focus win f w1 hw1 hf1 h)
+    exact ⟨s1.trans s2, k1.trans k2⟩
+  · exact ⟨s1, k1⟩
+
+theorem focusLost_safe : ∀ (f : Nat) (t : Tree) (win : WinTree.Id), TInv t → DragOK t → Alive t win →
+    SafeR (focusLost f t win) (fun t' => StepOK t t' ∧ KeepLinks t t') := by
+  intro f
+  induction f with
+  | zero => intro t win _ _ _; exact Or.inr (Or.inl rfl)
+  | succ f ih =>
+    intro t win hi hd ha
+    obtain ⟨w, hg, hw, hf⟩ := ha.get
+    unfold focusLost
+    simp only [hg, res_bind_ok]
+    cases hfc : w.focusedChild with
+    | none => exact flTail_safe (StepOK.refl hi hd) (KeepLinks.refl t) ha
+    | some fc =>
+      obtain ⟨cw, hcw, hcf, _⟩ := hi.child win fc w hw hf (hi.focus win fc w hw hf hfc)
+      apply SafeR.bind (ih t fc hi hd ⟨cw, hcw, hcf⟩)
+      intro t1 ⟨s1, k1⟩
+      exact flTail_safe s1 k1 (s1.ev.alive ha)
+
+/-- The end of `_focus_gained`: the window's own fields. -/
+def fgFinal (win : WinTree.Id) (child : Option WinTree.Id) (t : Tree) : Res Tree := do
+  let w ← WinTree.get t win
+  let w := if child.isNone then { w with isFocused := true } else w
+  pure (WinTree.set t win { w with focusedChild := child })
+
+theorem fgFinal_safe {t0 t : Tree} {win : WinTree.Id} {child : Option WinTree.Id} (s3 : StepOK t0 t) (k3 : KeepLinks t0 t)
+    (ha : Alive t win) (hch : ∀ c, child = some c → ∃ w, t.wins[win]? = some w ∧ c ∈ w.children) :
+    SafeR (fgFinal win child t) (fun t' => StepOK t0 t' ∧ KeepLinks t0 t') := by
+  obtain ⟨w3, hg3, hw3, hf3⟩ := ha.get
+  unfold fgFinal
+  simp only [hg3, res_bind_ok, res_pure]
+  have hmem : ∀ c, child = some c → c ∈ w3.children := by
+    intro c hc
+    obtain ⟨w0, hw0, hm⟩ := hch c hc
+    rw [hw3] at hw0; cases hw0
+    exact hm
+  split
+  · obtain ⟨s4, k4⟩ := focus_set_step (w' := { { w3 with isFocused := true } with focusedChild := child })
+      s3.inv s3.drag hw3 hf3 rfl rfl hf3 rfl rfl rfl hmem
+    exact ⟨s3.trans s4, k3.trans k4⟩
+  · obtain ⟨s4, k4⟩ := focus_set_step (w' := { w3 with focusedChild := child })
+      s3.inv s3.drag hw3 hf3 rfl rfl hf3 rfl rfl rfl hmem
+    exact ⟨s3.trans s4, k3.trans k4⟩
+
+/-- `_focus_gained` after the branch that held the focus was told. -/
+def fgMid (rec : Tree → WinTree.Id → Option WinTree.Id → Res Tree) (f : Nat) (win : WinTree.Id) (child : Option WinTree.Id)
+    (t : Tree) : Res Tree := do
+  let w ← WinTree.get t win
+  let t := if child.isSome && w.isFocused then WinTree.set t win { w with isFocused := false } else t
+  let w ← WinTree.get t win
+  let t ← match w.parent with
+    | some p => if w.isVisible then rec t p (some win) else pure t
+    | none => do
+      let _ ← getRoot t (f + 1) win
+      pure { t with root := { t.root with needsRestore := true, needsLater := true } }
+  fgFinal win child t
+
+def FgRecSafe (rec : Tree → WinTree.Id → Option WinTree.Id → Res Tree) : Prop :=
+  ∀ (t : Tree) (win : WinTree.Id) (child : Option WinTree.Id), TInv t → DragOK t →
+    Alive t win → Att t win → (∀ c, child = some c → ∃ w, t.wins[win]? = some w ∧ c ∈ w.children) →
+    SafeR (rec t win child) (fun t' => StepOK t t' ∧ KeepLinks t t')
+
+theorem fgMid_safe {rec : Tree → WinTree.Id → Option WinTree.Id → Res Tree} (hrec : FgRecSafe rec) (f : Nat) {t0 t1 : Tree}
+    {win : WinTree.Id} {child : Option WinTree.Id} (s1 : StepOK t0 t1) (k1 : KeepLinks t0 t1) (ha : Alive t1 win)
+    (hatt : Att t1 win) (hch : ∀ c, child = some c → ∃ w, t1.wins[win]? = some w ∧ c ∈ w.children) :
+    SafeR (fgMid rec f win child t1) (fun t' => StepOK t0 t' ∧ KeepLinks t0 t') := by
+  obtain ⟨w1, hg1, hw1, hf1⟩ := ha.get
+  unfold fgMid
+  simp only [hg1, res_bind_ok]
+  -- a focused ancestor loses `is_focused`
+  have step2 : ∃ t2, (if (child.isSome && w1.isFocused) = true then WinTree.set t1 win { w1 with isFocused := false } else t1) = t2 ∧
+      StepOK t1 t2 ∧ KeepLinks t1 t2 := by
+    split
+    · exact ⟨_, rfl, focus_set_step (w' := { w1 with isFocused := false }) s1.inv s1.drag hw1 hf1 rfl rfl hf1 rfl rfl rfl
+        (fun f h => s1.inv.focus win f w1 hw1 hf1 h)⟩
+    · exact ⟨_, rfl, StepOK.refl s1.inv s1.drag, KeepLinks.refl _⟩
+  obtain ⟨t2, e2, s2, k2⟩ := step2
+  rw [e2]
+  have ha2 := s2.ev.alive ha
+  obtain ⟨w2, hg2, hw2, hf2⟩ := ha2.get
+  simp only [hg2, res_bind_ok]
+  have hatt2 : Att t2 win := hatt.keep k2.keepParents
+  have hch2 : ∀ c, child = some c → ∃ w, t2.wins[win]? = some w ∧ c ∈ w.children := by
+    intro c hc
+    obtain ⟨w0, hw0, hm⟩ := hch c hc
+    obtain ⟨w', a, _, _, d⟩ := k2 win w0 hw0 (by rw [hw1] at hw0; cases hw0; exact hf1)
+    exact ⟨w', a, by rw [d]; exact hm⟩
+  have fin : ∀ t3, StepOK t2 t3 → KeepLinks t2 t3 → SafeR (fgFinal win child t3) (fun t' => StepOK t0 t' ∧ KeepLinks t0 t') := by
+    intro t3 s3 k3
+    refine fgFinal_safe ((s1.trans s2).trans s3) ((k1.trans k2).trans k3) (s3.ev.alive ha2) ?_
+    intro c hc
+    obtain ⟨w0, hw0, hm⟩ := hch2 c hc
+    obtain ⟨w', a, _, _, d⟩ := k3 win w0 hw0 (by rw [hw2] at hw0; cases hw0; exact hf2)
+    exact ⟨w', a, by rw [d]; exact hm⟩
+  cases hp : w2.parent with
+  | some p =>
+    simp only
+    split
+    · obtain ⟨pw, hpw, hpf, hpm⟩ := s2.inv.parent win p w2 hw2 hf2 hp
+      apply SafeR.bind (hrec t2 p (some win) s2.inv s2.drag ⟨pw, hpw, hpf⟩ (hatt2.parent s2.inv hw2 hp)
+        (fun c hc => by cases hc; exact ⟨pw, hpw, hpm⟩))
+      intro t3 ⟨s3, k3⟩
+      exact fin t3 s3 k3
+    · exact fin t2 (StepOK.refl s2.inv s2.drag) (KeepLinks.refl _)
+  | none =>
+    simp only
+    apply SafeR.bind (getRoot_safe s2.inv (f + 1) win hatt2)
+    intro _ _
+    exact fin _ ⟨s2.inv.root_frame rfl rfl rfl, s2.drag.root_frame rfl rfl rfl, Evolve.of_wins rfl⟩ (KeepLinks.of_wins rfl)
+
+theorem focusGained_safe : ∀ (f : Nat), FgRecSafe (focusGained f) := by
+  intro f
+  induction f with
+  | zero => intro t win child _ _ _ _ _; exact Or.inl rfl
+  | succ f ih =>
+    intro t win child hi hd ha hatt hch
+    obtain ⟨w, hg, hw, hf⟩ := ha.get
+    unfold focusGained
+    simp only [hg, res_bind_ok]
+    have same : SafeR (fgMid (focusGained f) f win child t) (fun t' => StepOK t t' ∧ KeepLinks t t') :=
+      fgMid_safe ih f (StepOK.refl hi hd) (KeepLinks.refl t) ha hatt hch
+    cases hfc : w.focusedChild with
+    | none => exact same
+    | some fc =>
+      simp only
+      split
+      · obtain ⟨cw, hcw, hcf, _⟩ := hi.child win fc w hw hf (hi.focus win fc w hw hf hfc)
+        apply SafeR.bind (focusLost_safe (f + 1) t fc hi hd ⟨cw, hcw, hcf⟩)
+        intro t1 ⟨s1, k1⟩
+        refine fgMid_safe ih f s1 k1 (s1.ev.alive ha) (hatt.keep k1.keepParents) ?_
+        intro c hc
+        obtain ⟨w0, hw0, hm⟩ := hch c hc
+        obtain ⟨w', a, _, _, d⟩ := k1 win w0 hw0 (by rw [hw] at hw0; cases hw0; exact hf)
+        exact ⟨w', a, by rw [d]; exact hm⟩
+      · exact same
+
+theorem takeFocus_safe {t : Tree} (hi : TInv t) (hd : DragOK t) {win : WinTree.Id} (ha : Alive t win) (hatt : Att t win) :
+    SafeR (takeFocus t win) (StepOK t) :=
+  (focusGained_safe _ t win none hi hd ha hatt (fun c hc => by cases hc)).mono fun _ h => h.1
+
+
 /-! ### the application's actions -/
 
-/-- The mutations covered: what the property names (close, unref), plus ref, hide, show and steal-input.
-    (Restacking requests and `take_focus` from inside handlers are not covered here.) -/
+/-- The mutations covered: what the property names (close, unref), plus ref, hide, show, steal-input, the four
+    restacking requests and `take_focus` — every action of the engine's vocabulary (`actOK_all`). -/
 def ActOK (a : Action) : Prop :=
-  a.act = .close ∨ a.act = .unref ∨ a.act = .keep ∨ a.act = .hide ∨ a.act = .unhide ∨ a.act = .stealOn ∨ a.act = .stealOff
+  a.act = .close ∨ a.act = .unref ∨ a.act = .keep ∨ a.act = .hide ∨ a.act = .unhide ∨ a.act = .stealOn ∨ a.act = .stealOff ∨
+  a.act = .raise ∨ a.act = .raiseFront ∨ a.act = .lower ∨ a.act = .lowerBack ∨ a.act = .focus
 
-/-- Every behaviour table uses covered actions only. -/
+theorem actOK_all (a : Action) : ActOK a := by
+  unfold ActOK
+  cases a.act <;> simp
+
+/-- Every behaviour table uses covered actions only (always true: `tableOK_all`). -/
 def TableOK (binds : Array Binding) : Prop :=
   ∀ (i : Nat) (b : Binding), binds[i]? = some b → ∀ e ∈ b.entries, ∀ a ∈ e.actions, ActOK a
+
+theorem tableOK_all (binds : Array Binding) : TableOK binds := fun _ _ _ _ _ a _ => actOK_all a
 
 theorem TableOK.entry {binds : Array Binding} (hs : TableOK binds) {i : Nat} {b : Binding} (h : binds[i]? = some b) :
     ∀ a ∈ b.entry.actions, ActOK a := by
@@ -1318,7 +1828,22 @@ theorem doAction_safe {st : St} {held : List WinTree.Id} (h : AInv st held) {a :
         SafeR (WinTree.modify st.tree a.win g >>= fun t => pure ({ st with tree := t } : St))
           (fun st' => AInv st' held ∧ st'.binds = st.binds) :=
       fun g hg => stepTo _ (modify_flag_safe h.tree h.drag hAl g hg)
-    rcases ha with ha | ha | ha | ha | ha | ha | ha <;> simp only [ha]
+    have hatt : (a.act = .raise ∨ a.act = .raiseFront ∨ a.act = .lower ∨ a.act = .lowerBack ∨ a.act = .focus) →
+        Att st.tree a.win := by
+      intro hk
+      have hal' := hal
+      unfold allowed at hal'
+      simp only [hw, hf, Bool.false_eq_true, if_false] at hal'
+      rcases hk with hk | hk | hk | hk | hk <;> simp only [hk] at hal' <;> exact attached_att h.tree _ _ hal'
+    rcases ha with ha | ha | ha | ha | ha | ha | ha | ha | ha | ha | ha | ha <;> simp only [ha]
+    rotate_right 5
+    · exact stepTo _ ((request_safe h.tree h.drag _ (Or.inl rfl) hAl (hatt (Or.inl ha))).mono fun _ x => x.1)
+    · exact stepTo _ ((request_safe h.tree h.drag _ (Or.inr (Or.inl rfl)) hAl (hatt (Or.inr (Or.inl ha)))).mono fun _ x => x.1)
+    · exact stepTo _ ((request_safe h.tree h.drag _ (Or.inr (Or.inr (Or.inl rfl))) hAl
+        (hatt (Or.inr (Or.inr (Or.inl ha))))).mono fun _ x => x.1)
+    · exact stepTo _ ((request_safe h.tree h.drag _ (Or.inr (Or.inr (Or.inr rfl))) hAl
+        (hatt (Or.inr (Or.inr (Or.inr (Or.inl ha)))))).mono fun _ x => x.1)
+    · exact stepTo _ (takeFocus_safe h.tree h.drag hAl (hatt (Or.inr (Or.inr (Or.inr (Or.inr ha))))))
     · -- close
       apply SafeR.bind (close_safe h.tree h.drag (treeFuel st.tree) (by unfold treeFuel; omega) hw hf)
       intro t' ⟨s, _⟩
@@ -2065,6 +2590,8 @@ theorem tinvCheck_sound {t : Tree} (h : tinvCheck t = true) : TInv t := by
     exact (hw3 i w hwi hf).2.2
   · intro r hr
     rw [hq] at hr; cases hr
+  · intro r hr
+    rw [hq] at hr; cases hr
 
 def ainvCheck (st : St) : Bool :=
   tinvCheck st.tree &&
@@ -2174,6 +2701,8 @@ theorem newSt_good (lines cols : Int) : Good [] (newSt lines cols) := by
     · intro i w hw _
       obtain ⟨hi0, rfl⟩ := only0 i w hw
       simp [hi0]
+    · intro r hr
+      rw [hq] at hr; cases hr
     · intro r hr
       rw [hq] at hr; cases hr
   · intro d hd; rw [hdr] at hd; cases hd
@@ -2349,6 +2878,7 @@ theorem insert_step {t : Tree} (hi : TInv t) (hd : DragOK t) {p : WinTree.Id} {p
       intro y yw hy hyf _
       obtain ⟨y', hy', f', _, pp', _⟩ := keep y yw hy
       exact ⟨y', hy', by rw [f']; exact hyf, pp'⟩
+    · exact hi.qkind
   · intro d hdd
     obtain ⟨x, hx, hxf⟩ := hd d hdd
     obtain ⟨x', hx', f, _, _, _⟩ := keep d x hx
@@ -2496,6 +3026,36 @@ theorem newWin_good {st : St} (h : Good [] st) {parent : WinTree.Id} (hp : Alive
   | false =>
     simp only [Bool.false_eq_true, if_false]
     exact body (parent, rect) hp
+
+/-- `tickit_window_new` returns only for a live parent (it dereferences it). -/
+theorem newWin_alive {st st' : St} {p id : WinTree.Id} {r : Rect} {a b c d : Bool}
+    (h : newWin st p r a b c d = Res.ok (st', id)) : Alive st.tree p := by
+  unfold newWin at h
+  obtain ⟨⟨t, i⟩, hn, _⟩ := res_bind_eq_ok.1 h
+  rw [newWindow_eq] at hn
+  have key : ∀ {α : Type} (k : Win → Res α) (x : α), (WinTree.get st.tree p >>= k) = Res.ok x → Alive st.tree p := by
+    intro α k x hx
+    obtain ⟨w, hg, _⟩ := res_bind_eq_ok.1 hx
+    obtain ⟨hw, hf⟩ := get_eq_ok.1 hg
+    exact ⟨w, hw, hf⟩
+  cases a with
+  | true =>
+    simp only [if_true] at hn
+    obtain ⟨pr, hc, _⟩ := res_bind_eq_ok.1 hn
+    have hf : treeFuel st.tree = (st.tree.wins.size + 1) + 1 := rfl
+    rw [hf, newWindow.climb] at hc
+    exact key _ _ hc
+  | false =>
+    simp only [Bool.false_eq_true, if_false] at hn
+    unfold insertNew at hn
+    exact key _ _ hn
+
+/-- `tickit_window_flush` by the application, outside any dispatch. -/
+theorem flushSt_good {st : St} (h : Good [] st) : SafeR (flushSt st) (Good []) := by
+  unfold flushSt
+  apply SafeR.bind (flush_safe h.1.tree h.1.drag)
+  intro t' s
+  exact ⟨h.1.step s, h.2⟩
 
 end WinInput
 end Tickit
